@@ -146,6 +146,21 @@ def rfloat(n, d):
 ASG_KINDS = ("asg", "aasg", "fasg", "sfasg")
 
 
+# minimal-parentheses mode: inside a tree of binary operators only the parentheses the documented precedence table
+# (spec/Grammar.tla Level: || 1, && 2, | 3, ^ 4, & 5, ==/!= 6, relational 7, +/- 8, */% 9; all left-associative) requires
+MINIMAL = [False]
+BIN_LEVEL = {"||": 1, "&&": 2, "|": 3, "^": 4, "&": 5, "==": 6, "!=": 6, "<": 7, ">": 7, "<=": 7, ">=": 7,
+             "+": 8, "-": 8, "*": 9, "/": 9, "%": 9}
+
+
+def rbin_min(e, need):
+    if e["k"] != "bin":
+        return rexpr(e)
+    lv = BIN_LEVEL[e["op"]]
+    s = "%s %s %s" % (rbin_min(e["l"], lv), e["op"], rbin_min(e["r"], lv + 1))
+    return "(" + s + ")" if lv < need else s
+
+
 def rexpr(e, top=False):
     """top: the expression is a whole statement / for-clause (an assignment needs no parentheses there)"""
     k = e["k"]
@@ -178,6 +193,8 @@ def rexpr(e, top=False):
     if k == "paren":
         return "(" + rexpr(e["e"]) + ")"
     if k == "bin":
+        if MINIMAL[0]:
+            return "(" + rbin_min(e, 0) + ")"
         return "(%s %s %s)" % (rexpr(e["l"]), e["op"], rexpr(e["r"]))
     if k == "un":
         return "(%s%s)" % (e["op"], rexpr(e["e"]))
@@ -352,8 +369,15 @@ def render_class(c, out, ctor_return_this=False):
     out.append("}")
 
 
-def render(prog, order=None, ctor_return_this=False):
-    """order: optional list of ("c", i) / ("f", i) giving the top-level declaration order."""
+def render(prog, order=None, ctor_return_this=False, minimal=False):
+    """order: optional list of ("c", i) / ("f", i) giving the top-level declaration order.
+    minimal: binary-operator trees carry only the parentheses the precedence table requires."""
+    if minimal:
+        MINIMAL[0] = True
+        try:
+            return render(prog, order, ctor_return_this)
+        finally:
+            MINIMAL[0] = False
     out = []
     if order is None:
         order = [("c", i) for i in range(len(prog["classes"]))] + [("f", i) for i in range(len(prog["funcs"]))]
